@@ -73,7 +73,8 @@ CHECKS = {
              "EventsOnceInOrder, Accounting. Every behaviour of a recorded model, 4-task `-simulate` behaviours and seeded "
              "random task sets are executed on the real AsyncDriver (vh driver; every other behaviour with its sleep futures created at task start "
              "and awaited later) and the recordings validated by TLC against "
-             "TraceScheduler.tla; AsyncRuntimeRunner (slices 1,2,3,7,10000, split runs) is compared with CoreRuntime::step on "
+             "TraceScheduler.tla; long-horizon behaviours (70-200 rounds of zero-cycle and short sleeps per task, hundreds of resumptions inside "
+             "ONE budget of 10^6 cycles as well as cut into budgets of 5-11) are validated the same way; AsyncRuntimeRunner (slices 1,2,3,7,10000, split runs) is compared with CoreRuntime::step on "
              "generated looping programs with timers and interrupts enabled.",
         design_ref="DESIGN.md section 4 (C18)",
         note="Trusted: TLC, vh harness (driver.rs builds the scripted futures from sleep_cycles/emit_event/current_cycle). Tasks are spawned before the first run_for.",
@@ -165,8 +166,14 @@ CHECKS = {
              "the real Python KeyboardMatrix/PCE500KeyboardHandler (constructor thresholds) and the real Rust KeyboardMatrix (repeat on and off, strobe-flicker campaign, redundant presses of held keys, an opposite-polarity decoy keyboard in the same process, "
              "twelve-key bursts producing more events in one tick than the queue holds; + KEYI via "
              "write_fifo_to_memory); TraceKeyboard.tla evaluates the property clauses on each implementation's own observations (KIL "
-             "value, enqueued events, queue contents, KEYI bit) and compares each step with the automaton (drift).",
-        design_ref="DESIGN.md section 4 (C14)",
+             "value, enqueued events, queue contents, KEYI bit) and compares each step with the automaton (drift). "
+             "MachineKbd.tla composes the same per-key automaton (KeyAutomaton.tla) with the abstract CPU / interrupt controller / main timer: the "
+             "MACHINE decides when the matrix is scanned (Python: after every instruction; Rust: on main-timer firings outside handlers), keeps the "
+             "key-interrupt latch and drains the queue; TLC checks KeyiGated, LatchHasCause, FifoLaw, EventOrder, DebounceInScans, ScanNeedsFiring "
+             "under both disciplines with keyboard interrupts on and off, and `-simulate` behaviours plus seeded scripts (keys going down and up "
+             "under strobes, masks, acknowledges, HALT, handlers) run on both WHOLE machines (CoreRuntime, PCE500Emulator), every step judged by "
+             "TraceMachineKbd.tla (KeyiGated, DropsOldestOnly, FifoBounded, EventOrder as the firmware sees the queue).",
+        design_ref="DESIGN.md section 4 (C14), section 9.7",
         note="Trusted: TLC, vh kbd module, Python driver (wraps scan_tick to observe its returned events). One known finding (Rust emits no release events) is listed in known_findings.json.",
         technique="TLA+ spec (Keyboard.tla) + TLC exhaustive/simulate + trace validation of the Python and Rust keyboard matrices",
         engine="kbd",
@@ -319,7 +326,7 @@ NOT_YET = {
 ENGINES = [
     dict(name="asm", path="spec/asm", serves_properties=["C10"], kind_free_text="TLA+ two-pass assembly layout reference + judge of recorded assemblies"),
     dict(name="mem", path="spec/mem", serves_properties=["C11"], kind_free_text="TLA+ memory bus over alias classes + trace spec"),
-    dict(name="kbd", path="spec/kbd", serves_properties=["C14"], kind_free_text="TLA+ keyboard matrix automaton + monitors + trace spec"),
+    dict(name="kbd", path="spec/kbd", serves_properties=["C14"], kind_free_text="TLA+ keyboard matrix automaton + monitors + trace spec; the matrix composed with the machine (MachineKbd) + trace spec"),
     dict(name="tables", path="spec/tables", serves_properties=["C17"], kind_free_text="TLA+ equalities over dumped tables/constants"),
     dict(name="isa", path="spec/isa", serves_properties=["C01", "C02", "C03", "C04", "C05", "C06", "C07", "C09"], kind_free_text="TLA+ SC62015 instruction format (table + grammar) and batch judges"),
     dict(name="lcd", path="spec/lcd", serves_properties=["C15"], kind_free_text="TLA+ HD61202 protocol + pixel map specs"),
